@@ -6,5 +6,6 @@ CONSTANTS
   Final = "final"
   ZeroFill = TRUE
   OnWriteError = "rename"
+  CrossDevice = FALSE
 INVARIANTS Emit
 CHECK_DEADLOCK FALSE
